@@ -42,22 +42,23 @@ AEvents(e, h) == LET q == SelectSeq(e.ev, LAMBDA x : x.h = h)
 \* them, or when their phase ends.  The driver logs a marker "L" whenever a loader is invoked: the writes of
 \* a loader phase happen after its marker and before the next one.
 \* cur: micro-writes of the active phase, rest: phases not yet started, q: remaining events and markers.
-Acc0 == [bad |-> <<>>, missing |-> <<>>, refany |-> {}, nov |-> 0, nex |-> 0, wov |-> 0, wex |-> 0, evk |-> {}]
-RECURSIVE RunMW(_, _, _, _, _, _, _)
-RunMW(st, cur, rest, q, acc, early, fin) ==
+Acc0 == [bad |-> <<>>, missing |-> <<>>, refany |-> {}, nov |-> 0, nex |-> 0, wov |-> 0, wex |-> 0, evk |-> {}, changed |-> {}]
+RECURSIVE RunMW(_, _, _, _, _, _, _, _)
+RunMW(st, cur, rest, q, acc, early, fin, live0) ==
     IF cur # {} /\ (q = <<>> \/ Head(q).c = "L")
     THEN \* the active phase ends: apply what is left of it
          LET w == CHOOSE x \in cur : \A y \in cur : x.k <= y.k
-             drop == Dropped(w, acc.evk)
+             drop == DroppedAt(w, st, acc.evk, live0, acc.changed)
          IN RunMW(IF drop THEN st ELSE ExecMW(st, w), cur \ {w}, rest, q,
                   IF drop THEN acc
-                  ELSE [acc EXCEPT !.missing = @ \o EvMW(st, w), !.refany = @ \cup RefAnyMW(st, w)], early, fin)
+                  ELSE [acc EXCEPT !.missing = @ \o EvMW(st, w), !.refany = @ \cup RefAnyMW(st, w),
+                              !.changed = IF w.t = "put" THEN @ \cup {w.k} ELSE @], early, fin, live0)
     ELSE IF q = <<>> THEN
          IF rest = <<>> THEN [s |-> st, acc |-> acc]
-         ELSE RunMW(st, Head(rest), Tail(rest), q, acc, early, fin)          \* a phase whose loader call was not logged
+         ELSE RunMW(st, Head(rest), Tail(rest), q, acc, early, fin, live0)          \* a phase whose loader call was not logged
     ELSE IF Head(q).c = "L" THEN
-         IF rest = <<>> THEN RunMW(st, {}, rest, Tail(q), acc, early, fin)
-         ELSE RunMW(st, Head(rest), Tail(rest), Tail(q), IF early THEN acc ELSE [acc EXCEPT !.evk = {}], early, fin)
+         IF rest = <<>> THEN RunMW(st, {}, rest, Tail(q), acc, early, fin, live0)
+         ELSE RunMW(st, Head(rest), Tail(rest), Tail(q), IF early THEN acc ELSE [acc EXCEPT !.evk = {}], early, fin, live0)
     ELSE
         LET ev   == Head(q)
             \* An Expiration event for a dead entry whose in-flight load is about to complete is ambiguous: the
@@ -66,8 +67,8 @@ RunMW(st, cur, rest, q, acc, early, fin) ==
             later(w) == \/ \E j \in DOMAIN q : j > 1 /\ q[j].k = w.k /\ q[j].v = w.v /\ q[j].c # "L"
                         \/ (w.k \in DOMAIN fin /\ fin[w.k].p = 1 /\ fin[w.k].v = w.v)
             amb(w) == w.real /\ w.t = "put" /\ ev.c = "Expiration" /\ AutoOK(st, ev)
-            cand == {w \in cur : (w.k = ev.k) /\ (~Dropped(w, acc.evk)) /\ (EvMW(st, w) = <<ev>>) /\ (amb(w) => later(w))}
-            sil  == {w \in cur : Dropped(w, acc.evk) \/ EvMW(st, w) = <<>>}
+            cand == {w \in cur : (w.k = ev.k) /\ (~DroppedAt(w, st, acc.evk, live0, acc.changed)) /\ (EvMW(st, w) = <<ev>>) /\ (amb(w) => later(w))}
+            sil  == {w \in cur : DroppedAt(w, st, acc.evk, live0, acc.changed) \/ EvMW(st, w) = <<>>}
             inK  == ev.k \in Keys(st)
             wgt  == IF inK /\ st.ent[ev.k].p THEN st.ent[ev.k].w ELSE 0
             cnt(ac) == [ac EXCEPT !.nov = @ + (IF ev.c = "Overflow" THEN 1 ELSE 0),
@@ -78,16 +79,16 @@ RunMW(st, cur, rest, q, acc, early, fin) ==
         IN IF cand # {}
            THEN LET w == CHOOSE x \in cand : TRUE
                 IN RunMW(ExecMW(st, w), cur \ {w}, rest, Tail(q),
-                         [acc EXCEPT !.refany = @ \cup RefAnyMW(st, w)], early, fin)
-           ELSE IF AutoOK(st, ev) THEN RunMW(Auto(st, ev), cur, rest, Tail(q), cnt(acc), early, fin)
+                         [acc EXCEPT !.refany = @ \cup RefAnyMW(st, w), !.changed = IF w.t = "put" THEN @ \cup {w.k} ELSE @], early, fin, live0)
+           ELSE IF AutoOK(st, ev) THEN RunMW(Auto(st, ev), cur, rest, Tail(q), cnt(acc), early, fin, live0)
            ELSE IF sil # {}
            THEN LET w == CHOOSE x \in sil : \A y \in sil : x.k <= y.k
-                    drop == Dropped(w, acc.evk)
+                    drop == DroppedAt(w, st, acc.evk, live0, acc.changed)
                 IN RunMW(IF drop THEN st ELSE ExecMW(st, w), cur \ {w}, rest, q,
-                         IF drop THEN acc ELSE [acc EXCEPT !.refany = @ \cup RefAnyMW(st, w)], early, fin)
+                         IF drop THEN acc ELSE [acc EXCEPT !.refany = @ \cup RefAnyMW(st, w), !.changed = IF w.t = "put" THEN @ \cup {w.k} ELSE @], early, fin, live0)
            ELSE RunMW(IF inK /\ st.ent[ev.k].p /\ st.ent[ev.k].v = ev.v THEN Auto(st, ev) ELSE st, cur, rest, Tail(q),
                       [cnt(acc) EXCEPT !.bad = Append(@, [k |-> ev.k, v |-> ev.v, c |-> ev.c, total |-> Total(st), max |-> st.max,
-                                                            ent |-> IF inK THEN st.ent[ev.k] ELSE Absent, now |-> st.now])], early, fin)
+                                                            ent |-> IF inK THEN st.ent[ev.k] ELSE Absent, now |-> st.now])], early, fin, live0)
 
 NormRR(q) == {[k |-> q[j].k, v |-> IF q[j].err = "" THEN q[j].v ELSE 0, err |-> q[j].err] : j \in DOMAIN q}
 KVSet(q)  == {<<q[j].k, q[j].v>> : j \in DOMAIN q}
@@ -144,8 +145,9 @@ TraceStep(st, e, line) ==
         logAL == LET q == SelectSeq(e.ev, LAMBDA x : x.h \in {"A", "L"})
                  IN [j \in DOMAIN q |-> [k |-> q[j].k, v |-> q[j].v, c |-> IF q[j].h = "L" THEN "L" ELSE q[j].c]]
         fin  == [k \in Keys(st) |-> e.proj[k + 1]]
-        rm   == IF o.gated THEN RunMW(r.s, {}, o.mw, logAL, Acc0, o.early, fin)
-                ELSE RunMW(r.s, IF o.mw = <<>> THEN {} ELSE Head(o.mw), IF o.mw = <<>> THEN <<>> ELSE Tail(o.mw), logAL, Acc0, o.early, fin)
+        live0 == LiveKeys(st)
+        rm   == IF o.gated THEN RunMW(r.s, {}, o.mw, logAL, Acc0, o.early, fin, live0)
+                ELSE RunMW(r.s, IF o.mw = <<>> THEN {} ELSE Head(o.mw), IF o.mw = <<>> THEN <<>> ELSE Tail(o.mw), logAL, Acc0, o.early, fin, live0)
         af   == rm.acc
         s2   == rm.s
         \* eviction counters: every Overflow removal, plus expiration sweeps; an Expiration event that
